@@ -257,9 +257,13 @@ func NewTypecast(scope *types.Scope, imports util.ImportNames, t types.Type, inn
 			expr = fmt.Sprintf("%v.%v", typ.Obj().Pkg().Name(), typ.Obj().Name())
 		}
 	case *types.Basic:
-		expr = t.String()
+		expr = typ.String()
 	default:
 		return nil, false
+	}
+	if util.IsPtr(t) {
+		// A conversion to a pointer type needs parentheses: (*T)(x).
+		expr = "(*" + expr + ")"
 	}
 
 	return TypecastEntry{inner: inner, typ: t, expr: expr}, true
